@@ -23,7 +23,7 @@ from ..common import enc, ask, call
 
 LEVEL = "proof"
 TRUSTED = [py2lean.trusted_note("heat")]
-PROP_FILES = ["PersimVerif/Props/C14.lean", py2lean.prop_file("heat")]
+PROP_FILES = ["PersimVerif/Props/C14.lean", py2lean.prop_file("heat"), "PersimVerif/Props/C15C14Model.lean"]
 RULE = ("pairs/triples of diagrams from one PRNG: sizes 0-8 (thorough 0-14), coordinates from lattice/half/dyadic/decimal/"
         "uniform modes (scales 2^-20..2^20), duplicates and diagonal points; kinds random / reordered-equal / nearly-equal "
         "(relative perturbation 1e-3..1e-15) / one or both empty; sigma = 10^U(-3,3), with prob 0.7 multiplied by the squared "
@@ -46,7 +46,9 @@ STATS = {"w1_reference_persim": 0, "w1_reference_own_persim_within_rotation_roun
 # theorems that carry a clause of the statement (helper lemmas, concrete instances and rfl restatements such as
 # heat_eq_closed_form / kSum_eq_sum are not in this list)
 CORE_THEOREMS = ["heat_eq_sqrt_d2", "kernel_psd", "heat_self_perm", "heat_symm", "heat_ignores_diagonal", "heat_translate",
-                 "heat_triangle", "w1_stability_bound", "w1_stability"]
+                 "heat_triangle", "w1_stability_bound", "w1_stability",
+                 # composed with the C02 model (Props/C15C14Model.lean)
+                 "wsReturns_isW1", "model_heat_le_model_wasserstein"]
 
 
 def H():
@@ -605,7 +607,7 @@ def replay(ctx, rep):
 
 
 MANIFEST = {
-    "text": "Proof: 31 Lean theorems (9 of them core, i.e. each a clause of the statement about the distance itself; the others are "
+    "text": "Proof: 31 Lean theorems in Props/C14.lean plus Props/C15C14Model.lean (C14 composed with the C02 model: if the model of wasserstein(D1, D2) returns w then the model of heat(D1, D2, sigma) is at most w/(4 sigma sqrt pi), under birth <= death, which is necessary) (11 of them core, i.e. each a clause of the statement about the distance itself; the others are "
             "kernel-level steps, rfl restatements such as heat_eq_closed_form / kSum_eq_sum, by-construction facts and one concrete "
             "instance) about the model of evalHeatKernel/heat over the reals (Real.exp), for diagrams of every size and "
             "every sigma > 0: the value is sqrt(k(F,F)+k(G,G)-2k(F,G)) for the multi-scale kernel (heat_eq_sqrt_d2: the kernel is "
